@@ -241,4 +241,5 @@ func init() {
 		return IfaceV{}
 	}
 	execThrough["github.com/tendermint/tendermint/light.ValidateTrustLevel"] = true
+	execThrough["github.com/tendermint/tendermint/types.ValidateHash"] = true
 }
